@@ -33,7 +33,7 @@ static uint64_t hstr(const std::string &s) { return fnv1a(s.data(), s.size()); }
 // one const-API step of kind k on mesh m; returns a digest of everything it observed
 template <class M> uint64_t step(const M &m, int k, int arg, const PropBank *bank) {
   uint64_t h = (uint64_t)k;
-  switch (k % 9) {
+  switch (k % 10) {
   case 0: { C01Counters c; h = mix(h, hstr(c01_check(m, c))); h = mix(h, c.queries); break; }           // all upward queries, boundary tests, boundary iterators
   case 1: { C05Ctx cx; cx.walk = {1, 1, -1, 1, 1, 1, -1, 1, 1, 1}; h = mix(h, hstr(c05_sweep(m, cx))); h = mix(h, cx.circulators); break; }  // every iterator / circulator
   case 2: { C08Ctx cx; std::vector<char> none(m.n_faces(), 0); h = mix(h, hstr(c08_sweep(m, none, cx))); h = mix(h, cx.faces); break; }
@@ -61,6 +61,21 @@ template <class M> uint64_t step(const M &m, int k, int arg, const PropBank *ban
     for (size_t i = 0; i < m.n_cells(); ++i) h = mix(h, m.is_deleted(CellHandle((int)i)));
     break;
   }
+  case 8: {  // registry lookups by name (const, no property is created or destroyed), persistent set enumeration
+    if (bank)
+      for (auto &sp : bank->slots) {
+        const std::string &n = sp->name;
+        h = mix(h, m.template property_exists<int, Entity::Vertex>(n)); h = mix(h, m.template property_exists<bool, Entity::Edge>(n));
+        h = mix(h, m.template property_exists<std::string, Entity::Face>(n)); h = mix(h, m.template property_exists<Vec3d, Entity::Cell>(n));
+        h = mix(h, m.template property_exists<int, Entity::HalfFace>(n)); h = mix(h, m.template property_exists<bool, Entity::HalfEdge>(n));
+        if (auto q = m.template get_property<int, Entity::Vertex>(n)) { h = mix(h, q->size()); if (q->size()) h = mix(h, (uint64_t)(int64_t)(*q)[VertexHandle(0)]); }
+        if (auto q = m.template get_property<bool, Entity::Edge>(n)) h = mix(h, q->size());
+      }
+    h = mix(h, m.template n_persistent_props<Entity::Vertex>()); h = mix(h, m.template n_props<Entity::Face>());
+    for (auto it = m.template persistent_props_begin<Entity::Vertex>(); it != m.template persistent_props_end<Entity::Vertex>(); ++it) h = mix(h, hstr((*it)->name()));
+    h = mix(h, m.template vertex_property_exists<Vec3d>("ovm:position"));
+    break;
+  }
   default: {  // backward traversal of every entity iterator
     { auto it = m.vertices_end(); for (size_t i = 0; i < m.n_logical_vertices(); ++i) { --it; h = mix(h, (uint64_t)(*it).idx()); } }
     { auto it = m.halffaces_end(); for (size_t i = 0; i < m.n_logical_halffaces(); ++i) { --it; h = mix(h, (uint64_t)(*it).idx()); } }
@@ -77,6 +92,7 @@ static uint64_t tet_step(const GeometricTetrahedralMeshV3d &m) {
     for (auto v : m.get_cell_vertices(c)) h = mix(h, (uint64_t)v.idx());
     for (auto v : m.tet_vertices(c)) h = mix(h, (uint64_t)v.idx());
     for (auto hf : m.cell(c).halffaces()) { h = mix(h, (uint64_t)m.halfface_opposite_vertex(hf).idx()); for (auto v : m.get_cell_vertices(hf)) h = mix(h, (uint64_t)v.idx()); }
+    for (auto v : m.get_cell_vertices(c)) for (auto w : m.get_cell_vertices(c)) if (v != w) h = mix(h, (uint64_t)m.find_halfedge(v, w).idx());
     TetTopology tt(m, c);
     h = mix(h, (uint64_t)tt.a().idx() * 7 + (uint64_t)tt.d().idx()); h = mix(h, (uint64_t)tt.bcd().idx());
   }
@@ -120,6 +136,14 @@ vf::CaseResult run_case(const std::string &id, const Program &prog, Stats &st) {
     int nt = 2 + (prog.empty() ? 0 : prog[0].a[0] % 4);
     for (int k = 0; k < 3 + nt; ++k) vs.push_back(tm.add_vertex(Vec3d(k, (k * k) % 5, k % 3)));
     for (int k = 0; k < nt; ++k) tm.add_cell(vs[(size_t)k], vs[(size_t)k + 1], vs[(size_t)k + 2], vs[(size_t)k + 3], true);
+    // a closed ring of tets around one edge: its two end vertices get 10..13 outgoing halfedges
+    {
+      int n = 9 + (prog.empty() ? 0 : prog[0].a[2] % 4);
+      VertexHandle a = tm.add_vertex(Vec3d(0, 0, 10)), b = tm.add_vertex(Vec3d(0, 0, 11));
+      std::vector<VertexHandle> r;
+      for (int k = 0; k < n; ++k) r.push_back(tm.add_vertex(Vec3d(std::cos(6.2831853 * k / n), std::sin(6.2831853 * k / n), 10.5)));
+      for (int k = 0; k < n; ++k) tm.add_cell(a, b, r[(size_t)k], r[(size_t)(k + 1) % (size_t)n], true);
+    }
     static const int P[8][3] = {{0, 0, 0}, {1, 0, 0}, {1, 1, 0}, {0, 1, 0}, {0, 0, 1}, {0, 1, 1}, {1, 1, 1}, {1, 0, 1}};
     for (int c = 0; c < 2 + (prog.empty() ? 0 : prog[0].a[1] % 2); ++c) {
       std::vector<VertexHandle> hv;
@@ -137,13 +161,13 @@ vf::CaseResult run_case(const std::string &id, const Program &prog, Stats &st) {
   for (int t = 0; t < T; ++t) {
     const Op &q = *queries[(size_t)t % queries.size()];
     int len = 3 + q.a[1] % 6;
-    for (int j = 0; j < len; ++j) seqs[(size_t)t].emplace_back((q.a[(j + t) % 5] + j * (1 + q.a[2] % 5) + (t / (int)queries.size())) % 11, q.a[(j + 1) % 5]);
+    for (int j = 0; j < len; ++j) seqs[(size_t)t].emplace_back((q.a[(j + t) % 5] + j * (1 + q.a[2] % 5) + (t / (int)queries.size())) % 12, q.a[(j + 1) % 5]);
   }
   auto run_seq = [&](const std::vector<std::pair<int, int>> &sq) {
     uint64_t h = 0;
     for (auto &pr : sq) {
-      if (pr.first == 9) h = mix(h, tet_step(tm));
-      else if (pr.first == 10) h = mix(h, hex_step(hm));
+      if (pr.first == 10) h = mix(h, tet_step(tm));
+      else if (pr.first == 11) h = mix(h, hex_step(hm));
       else h = mix(h, step(M, pr.first, pr.second, B));
     }
     return h;
